@@ -164,7 +164,51 @@ def _l12_l13(run: Run) -> None:
                     run.violate("L13", f"{modname}:{dotted(tg)}:shared-printer-settings", m, uses[0], "the settings of a shared module-level printer are changed inside a function: they persist into later calls")
 
 
+def _l14_suffix_patterns(run: Run) -> None:
+    """L14: a regular expression that tests how a rendered term ENDS (`...$` without a leading `^` / `.*`) is applied with .search(); with .match() / .fullmatch() it is
+    anchored at the start as well and only matches when the whole term is that ending - "2 x 10" followed by "3" then loses its number separator"""
+    import re as _re
+    for modname in (PRINTER, "symplyphysics.docs.printer_code"):
+        m = run.src.need(modname)
+        suffix: dict = {}  # name -> set of indices (None = the name itself is the pattern)
+        for st in m.tree.body:
+            if not (isinstance(st, (ast.Assign, ast.AnnAssign)) and st.value is not None):
+                continue
+            tg = st.targets[0] if isinstance(st, ast.Assign) else st.target
+            if not isinstance(tg, ast.Name):
+                continue
+            elts = st.value.elts if isinstance(st.value, (ast.Tuple, ast.List)) else [st.value]
+            for i, e in enumerate(elts):
+                if isinstance(e, ast.Call) and (dotted(e.func) or "").split(".")[-1] == "compile" and e.args and isinstance(e.args[0], ast.Constant) and isinstance(e.args[0].value, str):
+                    pat = e.args[0].value
+                    if pat.endswith("$") and not pat.endswith("\\$") and not pat.startswith(("^", ".*", "(?s).*")):
+                        suffix.setdefault(tg.id, set()).add(i if isinstance(st.value, (ast.Tuple, ast.List)) else None)
+        for name, idxs in suffix.items():
+            run.ob("L14", f"{modname}:{name}")
+            for fn in [f for f in ast.walk(m.tree) if isinstance(f, ast.FunctionDef)]:
+                # names bound by iterating over the tuple of patterns (for p in PATS, for p, t in zip(PATS, ...))
+                loop_vars = set()
+                for x in ast.walk(fn):
+                    its = []
+                    if isinstance(x, (ast.For, ast.comprehension)):
+                        its.append((x.target, x.iter))
+                    for tgt, it in its:
+                        src = [it] + (list(it.args) if isinstance(it, ast.Call) and dotted(it.func) in ("zip", "enumerate") else [])
+                        if any(isinstance(y, ast.Name) and y.id == name for y in src):
+                            loop_vars |= {y.id for y in ast.walk(tgt) if isinstance(y, ast.Name)}
+                for c in [x for x in ast.walk(fn) if isinstance(x, ast.Call) and isinstance(x.func, ast.Attribute) and x.func.attr in ("match", "fullmatch")]:
+                    recv = c.func.value
+                    hit = (isinstance(recv, ast.Name) and ((recv.id == name and None in idxs) or recv.id in loop_vars)) or \
+                        (isinstance(recv, ast.Subscript) and isinstance(recv.value, ast.Name) and recv.value.id == name and isinstance(recv.slice, ast.Constant) and recv.slice.value in idxs)
+                    if hit:
+                        run.violate("L14", f"{modname}:{fn.name}:{name}.{c.func.attr}", m, c,
+                                    f"`{norm(c, 60)}` applies a pattern of `{name}` that tests the END of a rendered term with .{c.func.attr}(), which is anchored at the start too: the test "
+                                    f"only succeeds when the whole term is that ending, so `2 x 10` followed by `3` loses its number separator (2 x 10 3)")
+
+
 def check(run: Run) -> None:
+    run.rule("L14", "a pattern that tests how a rendered term ends is applied with .search(), never with the start-anchored .match() / .fullmatch()")
+    _l14_suffix_patterns(run)
     run.rule("L12", "an override of SymPy's _needs_mul_brackets / _needs_brackets / _needs_function_brackets returns True or SymPy's own answer (possibly or-ed): it only adds brackets")
     run.rule("L13", "latex_str / code_str build their printer per call: no printer object is kept in a module-level name across calls (settings of one call would render the next)")
     _l12_l13(run)
@@ -174,6 +218,7 @@ def check(run: Run) -> None:
              "(a cut piece of a balanced string need not be balanced, which would void the induction of L1/L2)")
     run.rule("L4", "a printer method that receives an outer exponent `exp` uses it on every path that can return with exp given")
     run.rule("L5", "the printer never rounds or re-formats numbers (no precision format spec, round(), float()) - the printed number is the number")
+    run.rule("L15", "in the printer's templates a value substituted right after `^` (an exponent: an arbitrary expression) is wrapped in braces (TeX takes a single token otherwise: \\sin^10 is sin^1 0)")
     run.rule("L7", "the name helpers attach a subscript to a LaTeX name as a braced group `_{...}` (an unbraced multi-character subscript is read by TeX as one token followed by a product)")
     run.rule("L8", "whether two neighbouring factors need the number separator (2 \\cdot 10^{n}) is decided on their rendered text, not on the class of the factors")
     run.rule("L9", "the minus-sign extraction never takes a sign out of the base of a power unless the exponent is tested to be odd ((-b)**(-1/2), (-b)**(-2) keep their base)")
@@ -248,7 +293,12 @@ def check(run: Run) -> None:
         m = run.src.need(modname)
         fn = next(s_ for s_ in m.tree.body if isinstance(s_, ast.FunctionDef) and s_.name == fname)
         run.ob("L3", fname)
-        for node, how, target in cuts(fn):
+        # helpers of the module the name helper calls are part of it; taking a name apart with a regular expression (match groups) is cutting too
+        helpers = [h for h in m.tree.body if isinstance(h, ast.FunctionDef) and h is not fn
+                   and any(isinstance(x, ast.Call) and isinstance(x.func, ast.Name) and x.func.id == h.name for x in ast.walk(fn))]
+        regex_cuts = [(x, f"a regular expression (.{x.func.attr}())", x.func.value) for scope in [fn] + helpers for x in ast.walk(scope)
+                      if isinstance(x, ast.Call) and isinstance(x.func, ast.Attribute) and x.func.attr in ("match", "search", "fullmatch", "groups", "group", "groupdict", "findall", "finditer")]
+        for node, how, target in [c_ for scope in [fn] + helpers for c_ in cuts(scope)] + regex_cuts:
             run.violate("L3", f"{modname}:{fname}:{how}:{norm(target, 30)}", m, node,
                         f"{fname} cuts a name with {how} (`{norm(node, 60)}`): a display name such as `E_\\text{{kin}}` or `\\vec{{v}}_{{0}}` is balanced only as a whole; "
                         f"its pieces are not, so the composed LaTeX name can have unbalanced braces")
@@ -371,6 +421,31 @@ def _l7_l8(run: Run, pm, classes) -> None:
                     n += 1
                     run.ob("L7", f"{fname}:{norm(js, 40)}")
         run.floor("L7", n, 1, f"script placeholders in the LaTeX templates of {fname}")
+    # ---- L15: the same for the printer's own templates: a value substituted right after `^` or `_` is a braced group
+    import re as _re
+    n15 = 0
+    for meth in [s_ for s_ in classes[0].body if isinstance(s_, ast.FunctionDef)]:
+        for js in [x for x in ast.walk(meth) if isinstance(x, ast.JoinedStr)]:
+            for a, b in zip(js.values, js.values[1:]):
+                if isinstance(b, ast.FormattedValue) and isinstance(a, ast.Constant) and isinstance(a.value, str) and a.value:
+                    if a.value.endswith("^{"):
+                        n15 += 1
+                        run.ob("L15", f"{meth.name}:{norm(js, 40)}")
+                    elif a.value[-1] == "^" and not a.value.endswith("\\^"):
+                        n15 += 1
+                        run.ob("L15", f"{meth.name}:{norm(js, 40)}")
+                        run.violate("L15", f"{PRINTER}:{meth.name}:unbraced-script:{norm(js, 50)}", pm, js,
+                                    f"the template `{norm(js, 60)}` of {meth.name} puts `{norm(b.value, 20)}` right after `{a.value[-1]}` without braces: TeX takes one token, so an exponent "
+                                    f"such as 10, a + b or -1 is split (\\sin^10 x is sin^1 followed by 0): the braces stay balanced and the meaning changes")
+        for c in [x for x in ast.walk(meth) if isinstance(x, ast.BinOp) and isinstance(x.op, ast.Mod) and isinstance(x.left, ast.Constant) and isinstance(x.left.value, str)]:
+            for mm_ in _re.finditer(r"(\^)(\{?)%[sdr]", c.left.value):
+                n15 += 1
+                run.ob("L15", f"{meth.name}:{c.left.value[:40]}")
+                if not mm_.group(2):
+                    run.violate("L15", f"{PRINTER}:{meth.name}:unbraced-script:{c.left.value[:50]}", pm, c,
+                                f"the template {c.left.value!r} of {meth.name} puts a substituted value right after `{mm_.group(1)}` without braces: TeX takes one token, so a multi-token "
+                                f"exponent or subscript is split")
+    run.floor("L15", n15, 3, "script placeholders in the printer's templates")
     # ---- L8
     mul = next((s_ for s_ in classes[0].body if isinstance(s_, ast.FunctionDef) and s_.name == "_print_Mul"), None)
     run.require(mul is not None, "_print_Mul not found in the LaTeX printer")
